@@ -43,6 +43,7 @@ func Run(ctx *common.Ctx) {
 		}
 		arrays := map[uintptr]arrInfo{}
 		lens := make([]int, nvars) // current lengths, to generate valid indices
+		caps := make([]int, nvars) // current capacities: sources with spare capacity are preferred for extending operations
 		next := 10
 		fresh := func() int { next++; return next }
 		observe := func() (views []string, shown []string, newCap int, ok bool) {
@@ -54,6 +55,7 @@ func Run(ctx *common.Ctx) {
 					views = append(views, "([], None)")
 					shown = append(shown, "nil")
 					lens[i] = 0
+					caps[i] = 0
 					continue
 				}
 				if !isList {
@@ -84,10 +86,12 @@ func Run(ctx *common.Ctx) {
 				views = append(views, fmt.Sprintf("([%s]%%Z, Some (%d, %d, %d)%%nat)", strings.Join(xs, ";"), info.id, off, cap(l)))
 				shown = append(shown, fmt.Sprintf("(%s) array#%d off=%d cap=%d", strings.Join(xs, " "), info.id, off, cap(l)))
 				lens[i] = len(l)
+				caps[i] = cap(l)
 			}
 			return
 		}
 		L := 3 + ctx.Rng.Intn(maxLen-2)
+		forcedSrc, forcedAvoid, forcedX := -1, -1, 0 // second extension of the same list into another variable
 		var gops, gobs []string
 		var recs []stepRec
 		bad := false
@@ -95,17 +99,73 @@ func Run(ctx *common.Ctx) {
 			src, dst, b := ctx.Rng.Intn(nvars), ctx.Rng.Intn(nvars), ctx.Rng.Intn(nvars)
 			var lisp, g string
 			x := ctx.Rng.Intn(100)
-			if step < 2 || (lens[src] == 0 && ctx.Rng.Chance(45)) {
-				x = 0 // start with some lists
+			holding := 0
+			for i := 0; i < nvars; i++ {
+				if lens[i] > 0 {
+					holding++
+				}
 			}
-			if lens[src] == 0 && x >= 10 && ctx.Rng.Chance(60) {
+			if step < 1 || (holding < 2 && ctx.Rng.Chance(60)) {
+				x = 0 // start with some lists
+			} else if step < 3 && ctx.Rng.Chance(50) {
+				x = 52 + ctx.Rng.Intn(8) // an early add: its result has spare capacity
+			}
+			if lens[src] == 0 && x >= 7 && ctx.Rng.Chance(80) {
 				// prefer a source that holds a list
-				for try := 0; try < 4 && lens[src] == 0; try++ {
+				for try := 0; try < 6 && lens[src] == 0; try++ {
 					src = ctx.Rng.Intn(nvars)
 				}
 			}
+			extending := (x >= 45 && x < 60) || (x >= 85 && x < 90) || (x >= 11 && x < 15) // append, add, nconc, list*
+			second := false
+			if forcedSrc >= 0 && lens[forcedSrc] > 0 {
+				// the list extended in the previous step is extended once more into a third variable: if
+				// either extension wrote into shared spare capacity the first result is overwritten
+				second, extending = true, true
+				x = []int{45, 52, 85}[ctx.Rng.Intn(3)] // append, add, nconc
+				if ctx.Rng.Chance(70) {
+					x = forcedX // mostly the same function again
+				}
+				src = forcedSrc
+				for dst == src || dst == forcedAvoid {
+					dst = ctx.Rng.Intn(nvars)
+				}
+				var cb []int
+				for i := 0; i < nvars; i++ {
+					if lens[i] > 0 && lens[i] <= caps[src]-lens[src] {
+						cb = append(cb, i)
+					}
+				}
+				if len(cb) > 0 {
+					b = cb[ctx.Rng.Intn(len(cb))]
+				}
+			}
+			forcedSrc, forcedAvoid = -1, -1
+			if extending && !second && ctx.Rng.Chance(65) {
+				// extend a list whose backing array has spare capacity, by a list that fits into it: the
+				// situation in which an in-place append is possible
+				var cand []int
+				for i := 0; i < nvars; i++ {
+					if lens[i] > 0 && caps[i] > lens[i] {
+						cand = append(cand, i)
+					}
+				}
+				if len(cand) > 0 {
+					src = cand[ctx.Rng.Intn(len(cand))]
+					var cb []int
+					for i := 0; i < nvars; i++ {
+						if lens[i] > 0 && lens[i] <= caps[src]-lens[src] {
+							cb = append(cb, i)
+						}
+					}
+					if len(cb) > 0 && ctx.Rng.Chance(65) {
+						b = cb[ctx.Rng.Intn(len(cb))]
+					}
+				}
+			}
+			needList := func() bool { return lens[src] == 0 }
 			switch {
-			case x < 10:
+			case x < 7:
 				n := 1 + ctx.Rng.Intn(5)
 				var xs, gx []string
 				for i := 0; i < n; i++ {
@@ -115,60 +175,106 @@ func Run(ctx *common.Ctx) {
 				}
 				lisp = fmt.Sprintf("(setq %s (list %s))", vn(dst), strings.Join(xs, " "))
 				g = fmt.Sprintf("OList [%s]%%Z %d", strings.Join(gx, ";"), dst)
-			case x < 17:
+			case x < 11:
 				e := fresh()
 				lisp, g = fmt.Sprintf("(setq %s (cons %d %s))", vn(dst), e, vn(src)), fmt.Sprintf("OCons %d %d %d", e, src, dst)
+			case x < 15:
+				// list* with 0..2 leading elements: one argument returns the argument itself
+				n := ctx.Rng.Intn(3)
+				var xs []string
+				for i := 0; i < n; i++ {
+					xs = append(xs, fmt.Sprint(fresh()))
+				}
+				lisp = fmt.Sprintf("(setq %s (list* %s))", vn(dst), strings.Join(append(append([]string{}, xs...), vn(src)), " "))
+				g = fmt.Sprintf("OListStar [%s]%%Z %d %d", strings.Join(xs, ";"), src, dst)
+			case x < 20:
+				fname := "cdr"
+				if ctx.Rng.Chance(30) {
+					fname = "rest"
+				}
+				lisp, g = fmt.Sprintf("(setq %s (%s %s))", vn(dst), fname, vn(src)), fmt.Sprintf("OCdr %d %d", src, dst)
 			case x < 24:
-				lisp, g = fmt.Sprintf("(setq %s (cdr %s))", vn(dst), vn(src)), fmt.Sprintf("OCdr %d %d", src, dst)
-			case x < 29:
 				n := ctx.Rng.Intn(lens[src] + 2)
 				lisp, g = fmt.Sprintf("(setq %s (nthcdr %d %s))", vn(dst), n, vn(src)), fmt.Sprintf("ONthcdr %d %d %d", n, src, dst)
-			case x < 32:
+			case x < 28:
+				// member of an element that is (usually) present
+				e := fresh()
+				if l, ok := scope.Get(slip.Symbol(vn(src))).(slip.List); ok && len(l) > 0 && ctx.Rng.Chance(85) {
+					if fx, isFix := l[ctx.Rng.Intn(len(l))].(slip.Fixnum); isFix {
+						e = int(fx)
+					}
+				}
+				lisp, g = fmt.Sprintf("(setq %s (member %d %s))", vn(dst), e, vn(src)), fmt.Sprintf("OMember %d %d %d", e, src, dst)
+			case x < 31:
 				lisp, g = fmt.Sprintf("(setq %s (last %s))", vn(dst), vn(src)), fmt.Sprintf("OLast %d %d", src, dst)
-			case x < 36:
+			case x < 34:
 				lisp, g = fmt.Sprintf("(setq %s (butlast %s))", vn(dst), vn(src)), fmt.Sprintf("OButlast %d %d", src, dst)
-			case x < 42:
-				if lens[src] == 0 {
+			case x < 39:
+				if needList() {
 					step--
 					continue
 				}
 				s0 := ctx.Rng.Intn(lens[src] + 1)
 				e0 := s0 + ctx.Rng.Intn(lens[src]-s0+1)
 				lisp, g = fmt.Sprintf("(setq %s (subseq %s %d %d))", vn(dst), vn(src), s0, e0), fmt.Sprintf("OSubseq %d %d %d %d", s0, e0, src, dst)
-			case x < 46:
+			case x < 42:
 				lisp, g = fmt.Sprintf("(setq %s (copy-list %s))", vn(dst), vn(src)), fmt.Sprintf("OCopy %d %d", src, dst)
-			case x < 50:
+			case x < 45:
 				lisp, g = fmt.Sprintf("(setq %s (reverse %s))", vn(dst), vn(src)), fmt.Sprintf("OReverse %d %d", src, dst)
-			case x < 56:
+			case x < 52:
 				lisp, g = fmt.Sprintf("(setq %s (append %s %s))", vn(dst), vn(src), vn(b)), fmt.Sprintf("OAppend %d %d %d", src, b, dst)
-			case x < 68:
+			case x < 60:
 				e := fresh()
 				lisp, g = fmt.Sprintf("(setq %s (add %s %d))", vn(dst), vn(src), e), fmt.Sprintf("OAdd %d %d %d", src, e, dst)
-			case x < 73:
+			case x < 63:
 				e := fresh()
 				lisp, g = fmt.Sprintf("(push %d %s)", e, vn(src)), fmt.Sprintf("OPush %d %d", e, src)
-			case x < 77:
+			case x < 66:
 				lisp, g = fmt.Sprintf("(pop %s)", vn(src)), fmt.Sprintf("OPop %d", src)
-			case x < 84:
-				if lens[src] == 0 {
+			case x < 71:
+				if needList() {
 					step--
 					continue
 				}
 				e := fresh()
 				lisp, g = fmt.Sprintf("(setf (car %s) %d)", vn(src), e), fmt.Sprintf("OSetcar %d %d", src, e)
-			case x < 89:
-				if lens[src] == 0 {
+			case x < 75:
+				if needList() {
 					step--
 					continue
 				}
 				e, i := fresh(), ctx.Rng.Intn(lens[src])
 				lisp, g = fmt.Sprintf("(setf (nth %d %s) %d)", i, vn(src), e), fmt.Sprintf("OSetnth %d %d %d", src, i, e)
-			case x < 91:
+			case x < 78:
+				if needList() {
+					step--
+					continue
+				}
+				e, i := fresh(), ctx.Rng.Intn(lens[src])
+				lisp, g = fmt.Sprintf("(setf (elt %s %d) %d)", vn(src), i, e), fmt.Sprintf("OSetelt %d %d %d", src, i, e)
+			case x < 81:
+				if needList() {
+					step--
+					continue
+				}
+				e := fresh()
+				lisp, g = fmt.Sprintf("(setq %s (rplaca %s %d))", vn(dst), vn(src), e), fmt.Sprintf("ORplaca %d %d %d", src, e, dst)
+			case x < 83:
+				// rplacd with a non-empty list as new tail (nil would store a dotted pair: outside the modelled lists)
+				if needList() || lens[b] == 0 {
+					step--
+					continue
+				}
+				lisp, g = fmt.Sprintf("(setq %s (rplacd %s %s))", vn(dst), vn(src), vn(b)), fmt.Sprintf("ORplacd %d %d %d", src, b, dst)
+			case x < 85:
 				lisp, g = fmt.Sprintf("(setq %s (nreverse %s))", vn(dst), vn(src)), fmt.Sprintf("ONreverse %d %d", src, dst)
-			case x < 93:
+			case x < 90:
 				lisp, g = fmt.Sprintf("(setq %s (nconc %s %s))", vn(dst), vn(src), vn(b)), fmt.Sprintf("ONconc %d %d %d", src, b, dst)
-			case x < 94:
+			case x < 92:
 				lisp, g = fmt.Sprintf("(setq %s (sort %s '<))", vn(dst), vn(src)), fmt.Sprintf("OSort %d %d", src, dst)
+			case x < 95:
+				k := 1 + ctx.Rng.Intn(3)
+				lisp, g = fmt.Sprintf("(setq %s (mapcar (lambda (el) (+ el %d)) %s))", vn(dst), k, vn(src)), fmt.Sprintf("OMapcar %d %d %d", k, src, dst)
 			default:
 				// remove / delete an element that is (usually) present
 				e := fresh()
@@ -183,7 +289,19 @@ func Run(ctx *common.Ctx) {
 				}
 				lisp, g = fmt.Sprintf("(setq %s (%s %d %s))", vn(dst), fname, e, vn(src)), fmt.Sprintf("ORemove %d %d %d", e, src, dst)
 			}
+			if extending && !second && dst != src && lens[src] > 0 && ctx.Rng.Chance(50) {
+				forcedSrc, forcedAvoid, forcedX = src, dst, x
+			}
 			ctx.Hist("op:" + strings.SplitN(g, " ", 2)[0])
+			if strings.HasPrefix(g, "OAppend") || strings.HasPrefix(g, "ONconc") || strings.HasPrefix(g, "OAdd") {
+				need := 1
+				if !strings.HasPrefix(g, "OAdd") {
+					need = lens[b]
+				}
+				if lens[src] > 0 && need > 0 && caps[src]-lens[src] >= need {
+					ctx.Hist("extension fits into the spare capacity of its first argument")
+				}
+			}
 			out := common.EvalIn(scope, lisp)
 			views, shown, newCap, ok := observe()
 			rec := stepRec{Lisp: lisp, Vars: shown}
@@ -218,14 +336,13 @@ func Run(ctx *common.Ctx) {
 	}
 	_ = keep
 	ctx.Meta.DistinctNontrivial = len(distinct)
-	ctx.Meta.Rule = "random histories (3..13 steps, thorough 3..14) over 4 variables of list, cons, cdr, nthcdr, last, butlast, subseq, copy-list, reverse, append, add, push, pop, (setf car), (setf nth), nreverse, nconc, sort, remove, delete; fresh integers as elements; after every step each variable's contents and (array identity, offset, capacity) read from the slip.List header; distinct = distinct op sequences"
+	ctx.Meta.Rule = "random histories (3..13 steps, thorough 3..14) over 4 variables of list, cons, list*, cdr/rest, nthcdr, member, last, butlast, subseq, copy-list, reverse, append, add, push, pop, (setf car), (setf nth), (setf elt), rplaca, rplacd, nreverse, nconc, sort, remove, delete, mapcar; fresh integers as elements; after every step each variable's contents and (array identity, offset, capacity) read from the slip.List header; distinct = distinct op sequences"
 	header := "From C06 Require Import Model Spec Corr.\n"
 	footer := "Definition res := Eval vm_compute in check_all cases.\nPrint res.\nDefinition gcount := Eval vm_compute in guard_count cases.\nPrint gcount.\n"
 	ctx.WriteShards("cases", header, "case", footer, terms, descs, 16)
 	runtimeSlices(ctx)
 	ctx.ReplayKnownLisp()
 }
-
 
 // runtimeSlices: the same slice idiom inside the runtime (pkg/generic/defmethod.go, one of the property's
 // anchors): a method added late to an inherited flavor is inserted into the inheriting flavor's combination
